@@ -20,10 +20,11 @@ variable {K : Type} [Field K] [LinearOrder K] [IsStrictOrderedRing K] [FloorRing
 def Obj.snapParams (o : Obj K) (tol : K) (params : List (List K)) : List (List K) :=
   (List.zip o.bases.toList params).map (fun bp => bp.2.map (snap bp.1 tol))
 
-/-- Some non-periodic direction has a snapped parameter outside `[start, stop]`. -/
+/-- Some non-periodic direction has an EMPTY parameter list (`min()` of an empty sequence raises
+`ValueError`) or a snapped parameter outside `[start, stop]`. -/
 def Obj.OutOfDomain (o : Obj K) (tol : K) (params : List (List K)) : Prop :=
   ∃ bp ∈ List.zip o.bases.toList params, bp.1.periodic < 0 ∧
-    ∃ t ∈ bp.2, snap bp.1 tol t < bp.1.start ∨ bp.1.stop < snap bp.1 tol t
+    (bp.2 = [] ∨ ∃ t ∈ bp.2, snap bp.1 tol t < bp.1.start ∨ bp.1.stop < snap bp.1 tol t)
 
 /-- The value computed by `evaluate` once the argument checks have passed (`ps` = snapped
 parameters). -/
@@ -37,16 +38,19 @@ theorem Obj.validateDomain_any_iff (o : Obj K) (tol : K) (params : List (List K)
     (((List.zip o.bases.toList params).map
         (fun (x : Basis K × List K) => (x.1, x.2.map (snap x.1 tol)))).any
         (fun (x : Basis K × List K) =>
-          decide (x.1.periodic < 0 ∧
-            (x.2.any (fun t => decide (t < x.1.start ∨ x.1.stop < t))) = true)))
+          decide (x.1.periodic < 0 ∧ (x.2.isEmpty = true ∨
+            (x.2.any (fun t => decide (t < x.1.start ∨ x.1.stop < t))) = true))))
       = true ↔ o.OutOfDomain tol params := by
   unfold Obj.OutOfDomain
-  simp only [List.any_map, List.any_eq_true, Function.comp, decide_eq_true_eq, List.mem_map]
+  simp only [List.any_map, List.any_eq_true, Function.comp, decide_eq_true_eq, List.mem_map,
+    List.isEmpty_iff, List.map_eq_nil_iff]
   constructor
-  · rintro ⟨bp, hbp, h1, t, ⟨t0, ht0, rfl⟩, h2⟩
-    exact ⟨bp, hbp, h1, t0, ht0, h2⟩
-  · rintro ⟨bp, hbp, h1, t0, ht0, h2⟩
-    exact ⟨bp, hbp, h1, _, ⟨t0, ht0, rfl⟩, h2⟩
+  · rintro ⟨bp, hbp, h1, h2 | ⟨t, ⟨t0, ht0, rfl⟩, h2⟩⟩
+    · exact ⟨bp, hbp, h1, Or.inl h2⟩
+    · exact ⟨bp, hbp, h1, Or.inr ⟨t0, ht0, h2⟩⟩
+  · rintro ⟨bp, hbp, h1, h2 | ⟨t0, ht0, h2⟩⟩
+    · exact ⟨bp, hbp, h1, Or.inl h2⟩
+    · exact ⟨bp, hbp, h1, Or.inr ⟨_, ⟨t0, ht0, rfl⟩, h2⟩⟩
 
 theorem Obj.validateDomain_error (o : Obj K) (tol : K) (params : List (List K))
     (h : o.OutOfDomain tol params) : o.validateDomain tol params = .error .value := by
@@ -390,8 +394,10 @@ def Obj.hom2 (o : Obj K) (b1 b2 : Basis K) (tol : K) (us vs : List K) (tensor : 
 theorem Obj.outOfDomain2_iff {o : Obj K} {b1 b2 : Basis K} (hb : o.bases = #[b1, b2]) (tol : K)
     (us vs : List K) :
     o.OutOfDomain tol [us, vs] ↔
-      (b1.periodic < 0 ∧ ∃ t ∈ us, snap b1 tol t < b1.start ∨ b1.stop < snap b1 tol t) ∨
-      (b2.periodic < 0 ∧ ∃ t ∈ vs, snap b2 tol t < b2.start ∨ b2.stop < snap b2 tol t) := by
+      (b1.periodic < 0 ∧
+        (us = [] ∨ ∃ t ∈ us, snap b1 tol t < b1.start ∨ b1.stop < snap b1 tol t)) ∨
+      (b2.periodic < 0 ∧
+        (vs = [] ∨ ∃ t ∈ vs, snap b2 tol t < b2.start ∨ b2.stop < snap b2 tol t)) := by
   simp [Obj.OutOfDomain, hb]
 
 theorem Obj.evalCore2 {o : Obj K} {b1 b2 : Basis K} (hb : o.bases = #[b1, b2]) (tol : K)
@@ -494,11 +500,15 @@ theorem Obj.dimension_of_shape {o : Obj K} {pre : List ℕ} {nc : ℕ}
 
 theorem Obj.not_outOfDomain2 {o : Obj K} {b1 b2 : Basis K} (hb : o.bases = #[b1, b2])
     (hv1 : b1.Valid) (hv2 : b2.Valid) {tol : K} (htol : 0 < tol) {us vs : List K}
-    (hus : ∀ u ∈ us, b1.Admissible tol u) (hvs : ∀ v ∈ vs, b2.Admissible tol v) :
+    (hus : ∀ u ∈ us, b1.Admissible tol u) (hvs : ∀ v ∈ vs, b2.Admissible tol v)
+    (hne1 : b1.periodic < 0 → us ≠ [] := by (first | assumption | (simp; done) | skip))
+    (hne2 : b2.periodic < 0 → vs ≠ [] := by (first | assumption | (simp; done) | skip)) :
     ¬ o.OutOfDomain tol [us, vs] := by
   rw [Obj.outOfDomain2_iff hb]
-  rintro (⟨h1, t, ht, h2⟩ | ⟨h1, t, ht, h2⟩)
+  rintro (⟨h1, h0 | ⟨t, ht, h2⟩⟩ | ⟨h1, h0 | ⟨t, ht, h2⟩⟩)
+  · exact hne1 h1 h0
   · exact Basis.Admissible.not_out hv1 htol (hus t ht) ⟨h1, h2⟩
+  · exact hne2 h1 h0
   · exact Basis.Admissible.not_out hv2 htol (hvs t ht) ⟨h1, h2⟩
 
 /-- Entry formula of `project` on a 3-d array `m1 × m2 × (dim+1)`. -/
@@ -655,7 +665,9 @@ theorem Obj.evaluate2_spec_nonrational {o : Obj K} {b1 b2 : Basis K} (hb : o.bas
     (hv1 : b1.Valid) (hv2 : b2.Valid) {nc : ℕ}
     (hs : o.cps.shape = [b1.numFunctions, b2.numFunctions, nc]) (hr : o.rational = false)
     {tol : K} (htol : 0 < tol) {us vs : List K}
-    (hus : ∀ u ∈ us, b1.Admissible tol u) (hvs : ∀ v ∈ vs, b2.Admissible tol v) :
+    (hus : ∀ u ∈ us, b1.Admissible tol u) (hvs : ∀ v ∈ vs, b2.Admissible tol v)
+    (hne1 : b1.periodic < 0 → us ≠ [] := by (first | assumption | (simp; done) | skip))
+    (hne2 : b2.periodic < 0 → vs ≠ [] := by (first | assumption | (simp; done) | skip)) :
     ∃ res, o.evaluate tol [us, vs] true = .ok res ∧
       res.shape = [us.length, vs.length, nc] ∧ res.data.size = us.length * vs.length * nc ∧
       ∀ i1 i2 c, i1 < us.length → i2 < vs.length → c < nc →
@@ -681,7 +693,9 @@ theorem Obj.evaluate2_spec_rational {o : Obj K} {b1 b2 : Basis K} (hb : o.bases 
     (hw : ∀ j1 j2, j1 < b1.numFunctions → j2 < b2.numFunctions →
       0 < o.cps.get ((j1 * b2.numFunctions + j2) * (dim + 1) + dim))
     {tol : K} (htol : 0 < tol) {us vs : List K}
-    (hus : ∀ u ∈ us, b1.Admissible tol u) (hvs : ∀ v ∈ vs, b2.Admissible tol v) :
+    (hus : ∀ u ∈ us, b1.Admissible tol u) (hvs : ∀ v ∈ vs, b2.Admissible tol v)
+    (hne1 : b1.periodic < 0 → us ≠ [] := by (first | assumption | (simp; done) | skip))
+    (hne2 : b2.periodic < 0 → vs ≠ [] := by (first | assumption | (simp; done) | skip)) :
     ∃ res, o.evaluate tol [us, vs] true = .ok res ∧
       res.shape = [us.length, vs.length, dim] ∧ res.data.size = us.length * vs.length * dim ∧
       ∀ i1 i2, i1 < us.length → i2 < vs.length →
@@ -726,7 +740,9 @@ theorem Obj.evaluate2_in_bbox {o : Obj K} {b1 b2 : Basis K} (hb : o.bases = #[b1
     (hv1 : b1.Valid) (hv2 : b2.Valid) {nc : ℕ}
     (hs : o.cps.shape = [b1.numFunctions, b2.numFunctions, nc]) (hr : o.rational = false)
     {tol : K} (htol : 0 < tol) {us vs : List K}
-    (hus : ∀ u ∈ us, b1.Admissible tol u) (hvs : ∀ v ∈ vs, b2.Admissible tol v) :
+    (hus : ∀ u ∈ us, b1.Admissible tol u) (hvs : ∀ v ∈ vs, b2.Admissible tol v)
+    (hne1 : b1.periodic < 0 → us ≠ [] := by (first | assumption | (simp; done) | skip))
+    (hne2 : b2.periodic < 0 → vs ≠ [] := by (first | assumption | (simp; done) | skip)) :
     ∃ res, o.evaluate tol [us, vs] true = .ok res ∧
       ∀ i1 i2 c, i1 < us.length → i2 < vs.length → c < nc →
         ((o.boundingBox).getD c (0, 0)).1 ≤ res.get ((i1 * vs.length + i2) * nc + c) ∧
